@@ -57,6 +57,9 @@ MUTANTS = [
      "        if getattr(self, '_lookup', None) is None:\n"
      "            self._lookup = np.array(sorted(self.get_demoted()))\n"
      "        result = np.isin(pix, self._lookup)\n", "C11-R7"),
+    ("offset subtracted", "AegeanTools/source_finder.py",
+     "                yx = list(zip(y + ymin, x + xmin))",
+     "                yx = list(zip(y - ymin, x + xmin))", "C11-R1"),
     ("origin 1", "AegeanTools/source_finder.py",
      "ra, dec = wcs.wcs.wcs_pix2world(yx, 0).transpose()",
      "ra, dec = wcs.wcs.wcs_pix2world(yx, 1).transpose()", "C11-R1"),
